@@ -5,38 +5,86 @@ use h3_datagram::datagram::Datagram;
 use h3v::{code_value, hex, run_lines, unhex, ChunkBuf};
 use std::convert::TryFrom;
 
-fn main() {
-    run_lines(|ws| match ws {
-        ["dg.enc", sid, pl, steps] => {
-            let sid: u64 = sid.parse().unwrap();
-            let chunks: Vec<Bytes> = if *pl == "-" {
-                vec![]
-            } else {
-                pl.split('.').map(|c| Bytes::from(unhex(c))).collect()
-            };
-            let id = StreamId::try_from(sid).unwrap();
-            let dg = Datagram::new(id, ChunkBuf::new(chunks));
-            let mut enc = dg.encode();
-            let mut out = String::new();
-            if *steps != "-" {
-                for st in steps.split(',') {
-                    let k: usize = st[1..].parse().unwrap();
-                    out.push_str(&format!("r{}:", enc.remaining()));
-                    if st.starts_with('c') {
-                        let c = enc.chunk();
-                        let n = k.min(c.len());
-                        out.push_str(&hex(&c[..n]));
-                        out.push(' ');
-                        enc.advance(n);
-                    } else {
-                        out.push_str(&format!("skip{} ", k));
-                        enc.advance(k);
-                    }
+/// Encodes and consumes the datagram as scripted.  Steps: cK (take <= K bytes of chunk()), aK (advance K),
+/// bK (copy_to_bytes(min(K, remaining))), g (get_u8).  Final drain: d = chunk by chunk, B = copy_to_bytes(remaining())
+/// (what h3-quinn's send_datagram does), P = BytesMut::put (has_remaining/chunk/advance loop of the bytes crate).
+/// `has_remaining()` must agree with `remaining() != 0` at every observation point.
+fn enc_case(sid: &str, pl: &str, steps: &str, drain: &str) -> String {
+    use bytes::BufMut;
+    let sid: u64 = sid.parse().unwrap();
+    let chunks: Vec<Bytes> = if pl == "-" {
+        vec![]
+    } else {
+        pl.split('.').map(|c| Bytes::from(unhex(c))).collect()
+    };
+    let id = StreamId::try_from(sid).unwrap();
+    let dg = Datagram::new(id, ChunkBuf::new(chunks));
+    let mut enc = dg.encode();
+    let mut out = String::new();
+    let rem = |e: &h3_datagram::datagram::EncodedDatagram<ChunkBuf>| -> String {
+        if e.has_remaining() != (e.remaining() != 0) {
+            format!("HR-MISMATCH{}", e.remaining())
+        } else {
+            format!("r{}", e.remaining())
+        }
+    };
+    if steps != "-" {
+        for st in steps.split(',') {
+            out.push_str(&rem(&enc));
+            out.push(':');
+            if st == "g" {
+                if enc.remaining() == 0 {
+                    out.push_str("- ");
+                    continue;
                 }
+                let b = enc.get_u8();
+                out.push_str(&format!("{:02x} ", b));
+                continue;
             }
+            let k: usize = st[1..].parse().unwrap();
+            if st.starts_with('c') {
+                let c = enc.chunk();
+                let n = k.min(c.len());
+                out.push_str(&hex(&c[..n]));
+                out.push(' ');
+                enc.advance(n);
+            } else if st.starts_with('b') {
+                let n = k.min(enc.remaining());
+                let b = enc.copy_to_bytes(n);
+                out.push_str(&hex(&b));
+                out.push(' ');
+            } else {
+                out.push_str(&format!("skip{} ", k));
+                enc.advance(k);
+            }
+        }
+    }
+    match drain {
+        "B" => {
+            out.push_str(&rem(&enc));
+            out.push(':');
+            let n = enc.remaining();
+            let b = enc.copy_to_bytes(n);
+            out.push_str(&hex(&b));
+            out.push(' ');
+            out.push_str(&rem(&enc));
+        }
+        "P" => {
+            out.push_str(&rem(&enc));
+            out.push(':');
+            let mut m = bytes::BytesMut::new();
+            m.put(&mut enc);
+            out.push_str(&hex(&m));
+            out.push(' ');
+            out.push_str(&rem(&enc));
+        }
+        _ => {
             let mut guard = 100000;
             while enc.remaining() != 0 && guard > 0 {
                 guard -= 1;
+                if !enc.has_remaining() {
+                    return "HR-MISMATCH".into();
+                }
                 let c = enc.chunk();
                 if c.is_empty() {
                     return "empty-chunk".into();
@@ -46,8 +94,18 @@ fn main() {
                 out.push(' ');
                 enc.advance(n);
             }
-            format!("ok {}", out.trim())
+            if enc.has_remaining() {
+                return "HR-MISMATCH".into();
+            }
         }
+    }
+    format!("ok {}", out.trim())
+}
+
+fn main() {
+    run_lines(|ws| match ws {
+        ["dg.enc", sid, pl, steps] => enc_case(sid, pl, steps, "d"),
+        ["dg.enc", sid, pl, steps, drain] => enc_case(sid, pl, steps, drain),
         ["dg.dec", h] => {
             let b = Bytes::from(unhex(h));
             match Datagram::decode(b) {
